@@ -112,25 +112,48 @@ def params():
         catches_base = False
     else:
         raise runner.TranslateError(f"tls.aclose: unrecognised except clause {ast.unparse(h.type)}")
-    # (3) client aclose: is there a forced fallback
+    # (3) client aclose: is there a forced fallback, and is it the shape of the model (the try block is exactly the
+    #     acquisition of the send lock, the handler force-closes the transport and re-raises)
     cl = _func(parse("src/easynetwork/clients/async_tcp.py"), "AsyncTCPNetworkClient.aclose")
     client_fallback = bool(_calls(cl, "aclose_forcefully"))
     if client_fallback:
-        hs = [h for n in ast.walk(cl) if isinstance(n, ast.Try) for h in n.handlers if _calls(h, "aclose_forcefully")]
-        if len(hs) != 1:
+        tries = [n for n in ast.walk(cl) if isinstance(n, ast.Try) and any(_calls(h, "aclose_forcefully") for h in n.handlers)]
+        if len(tries) != 1 or len(tries[0].handlers) != 1:
             raise runner.TranslateError("client.aclose: forced fallback in an unrecognised position")
+        t = tries[0]
+        body_src = ast.unparse(t.body[0]) if len(t.body) == 1 else ""
+        if "send_lock.acquire()" not in body_src or not body_src.startswith("await "):
+            raise runner.TranslateError(f"client.aclose: the guarded block is not the lock acquisition: {body_src!r}")
+        h = t.handlers[0]
+        call = _calls(h, "aclose_forcefully")[0]
+        if len(call.args) != 1 or "transport" not in ast.unparse(call.args[0]):
+            raise runner.TranslateError("client.aclose: the fallback does not close the transport")
+        if not isinstance(h.body[-1], ast.Raise) or h.body[-1].exc is not None:
+            raise runner.TranslateError("client.aclose: the fallback does not re-raise")
+    else:
+        withs = [n for n in ast.walk(cl) if isinstance(n, ast.AsyncWith) and "send_lock" in ast.unparse(n.items[0])]
+        if len(withs) != 1:
+            raise runner.TranslateError("client.aclose: expected `async with self.__send_lock`")
     # (4) server-side client: what the fallback closes
-    api = _func(parse("src/easynetwork/servers/async_tcp.py"), "_ConnectedClientAPI.aclose")
-    cs = _calls(api, "aclose_forcefully")
-    if len(cs) != 1 or len(cs[0].args) != 1:
-        raise runner.TranslateError("_ConnectedClientAPI.aclose: expected one aclose_forcefully(x) call")
-    target = ast.unparse(cs[0].args[0])
-    if target == "self.__client":
+    srv_tree = parse("src/easynetwork/servers/async_tcp.py")
+    api = _func(srv_tree, "_ConnectedClientAPI.aclose")
+    hs = [h for n in ast.walk(api) if isinstance(n, ast.Try) for h in n.handlers]
+    if len(hs) != 1 or "get_cancelled_exc_class" not in ast.unparse(hs[0].type or ast.Constant(None)):
+        raise runner.TranslateError("_ConnectedClientAPI.aclose: expected one `except <cancelled>` handler")
+    cs = _calls(hs[0], "aclose_forcefully")
+    cs2 = _calls(hs[0], "_aclose_forcefully")
+    if len(cs) == 1 and not cs2 and len(cs[0].args) == 1 and ast.unparse(cs[0].args[0]) == "self.__client":
         bypass = False
-    elif "transport" in target:
+    elif len(cs2) == 1 and not cs and ast.unparse(cs2[0].func) == "self.__client._aclose_forcefully":
+        # the method must close the transport without the guard
+        low = _func(parse("src/easynetwork/lowlevel/api_async/servers/stream.py"), "ConnectedStreamClient._aclose_forcefully")
+        inner = _calls(low, "aclose_forcefully")
+        if any(isinstance(n, (ast.With, ast.AsyncWith)) for n in ast.walk(low)) or len(inner) != 1 \
+                or "transport" not in ast.unparse(inner[0].args[0]):
+            raise runner.TranslateError("ConnectedStreamClient._aclose_forcefully: unrecognised body")
         bypass = True
     else:
-        raise runner.TranslateError(f"_ConnectedClientAPI.aclose: unrecognised fallback target {target}")
+        raise runner.TranslateError("_ConnectedClientAPI.aclose: unrecognised fallback")
     b = lambda v: "true" if v else "false"
     return (f"Definition closing_flag_first : bool := {b(closing_first)}.\n"
             f"Definition unwrap_handler_catches_base : bool := {b(catches_base)}.\n"
